@@ -75,7 +75,7 @@ def is_word(t):
 
 
 DAMAGES = ["drop", "dup", "ins_op", "ins_with", "ins_lp", "ins_rp", "empty_parens", "wrap", "wrap_all", "plus_suffix", "plus_token",
-           "with_clause", "unknown", "swap_role", "swap", "odd_char", "dup_with", "op_to_with", "ref_case"]
+           "with_clause", "unknown", "swap_role", "swap", "odd_char", "dup_with", "op_to_with", "ref_case", "flip_parens", "flip_parens", "shuffle"]
 
 
 def damage(rng, toks, kind=None):
@@ -163,6 +163,35 @@ def damage(rng, toks, kind=None):
         ops = [k for k, x in enumerate(t) if x.upper() in ("AND", "OR")]
         if ops:
             t[rng.choice(ops)] = "WITH"
+    elif kind == "flip_parens":
+        # same number of '(' and ')', wrong order: a matching pair is turned inside out, `A ) op ( B`,
+        # or an operator is split by `) (`
+        opens = [k for k, x in enumerate(t) if x == "("]
+        if opens and rng.random() < 0.6:
+            a = rng.choice(opens)
+            d = 0
+            b = a
+            for k in range(a, n):
+                d += t[k] == "("
+                d -= t[k] == ")"
+                if d == 0:
+                    b = k
+                    break
+            t[a], t[b] = ")", "("
+        else:
+            ops = [k for k, x in enumerate(t) if x.upper() in ("AND", "OR")]
+            if ops:
+                a = rng.choice(ops)
+                t = t[:a] + [")", t[a], "("] + t[a + 1 :]
+            else:
+                t = [")"] + t + ["("]
+    elif kind == "shuffle" and n > 2:
+        # a permutation of the tokens (all counts preserved)
+        a = rng.randrange(n - 1)
+        b = rng.randrange(a + 1, n)
+        seg = t[a : b + 1]
+        rng.shuffle(seg)
+        t[a : b + 1] = seg
     elif kind == "ref_case":
         # two LicenseRef tokens that differ only in letter case / a '+'
         suf = rng.choice(["Foo", "aB", "X.y"])
